@@ -174,6 +174,24 @@ def algo_rule(ctx):
         oksep = bool(splits) and all(n["m"] == "split" and len(n["args"]) == 1 and n["args"][0].get("k") == "lit" and n["args"][0].get("v") == "/" for n in splits)
         obs.append(ob("C13.algo/%s/separator" % name, oksep, ctx.where(f), "paths are cut at `/` and only there (%d split calls): %s" % (len(splits), oksep),
                       witness=None if oksep else 'a backslash in a src is rewritten to `/`: the link no longer names the file that was registered'))
+        # every cut list goes through the segment walk: none is appended wholesale (`slices.extend(base.split('/'))` keeps `.`
+        # and `..` of the referring path, which need not be in normal form: only the wasm bindings normalise what they are given)
+        bypass = []
+        pm_ = {}
+        for g_ in sir.reach(tc, f, 2):
+            if g_.body:
+                pm_.update(sir.parent_map(g_.body))
+        for sp_ in splits:
+            up = pm_.get(id(sp_))
+            while up is not None and up.get("k") in ("ref", "paren", "mcall") and up.get("k") != "for" and not (up.get("k") == "mcall" and up["m"] in ("extend", "collect", "append", "extend_from_slice")):
+                if up.get("k") == "mcall" and up["m"] not in ("iter", "into_iter", "peekable", "by_ref"):
+                    break
+                up = pm_.get(id(up))
+            if up is not None and up.get("k") == "mcall" and up["m"] in ("extend", "collect", "append", "extend_from_slice"):
+                bypass.append(sir.expr_str(up)[:60])
+        if bypass:
+            okall = False
+            details.append({"appended without the walk": bypass})
         obs.append(ob("C13.algo/%s/segments" % name, okall, ctx.where(f), "segment handling %s (expected `.` dropped, `..` pops, anything else - including empty segments - pushed)" % details,
                       witness=None if okall else 'src="d//t" links `p/d/t` instead of the registered `p/d//t`'))
         if name == "resolve":
@@ -317,6 +335,36 @@ def lazy_rule(ctx):
     return obs
 
 
+def wave10_rules(ctx):
+    """obligations added after the tenth wave of seeded changes"""
+    import absint as ai
+    ob = ctx.ob
+    tc = ctx.tc
+    obs = []
+    # replacing the content of an inline module never touches a module that is loaded from a file: the search for the module
+    # to overwrite turns an external reference down whatever its name is
+    fs = [f for f in tc.fns if f.name == "set_inline_script_content" and f.base == "Template" and f.body]
+    if fs:
+        f = fs[0]
+        preds = [n["args"][0] for n in sir.walk(f.body) if n.get("k") == "mcall" and n["m"] in ("find", "position", "any", "filter") and n["args"] and n["args"][0].get("k") == "closure"
+                 and "scripts" in sir.expr_str(n["recv"])]
+        verdict, d = None, "the search for the module to overwrite is not in a form this rule reads"
+        if len(preds) == 1:
+            methods = {g.name: g for g in tc.fns if g.body and g.base == "Script"}
+            F = ai.FREE
+            ext = ("E", "GlobalRef", (("tag_location", F), ("module_location", F), ("module_name", ("E", "StrName", (("name", F), ("location", F)))), ("src_location", F), ("src", F)))
+            it = ai.Interp(idx=tc, inline=methods)
+            outs = it.call_closure(("closure", 0, preds[0]), [ext], ai.St({"module_name": F, "self": F}))
+            vals = set(o.value for o in outs)
+            if outs and vals == {False}:
+                verdict, d = True, "an external module is never selected"
+            elif outs and not any(o.tainted for o in outs):
+                verdict, d = False, "an external `<wxs src>` module of the same name can be selected and is then replaced by an inline one"
+        obs.append(ob("C13.deps/inline-content-only", verdict, ctx.where(f), d,
+                      witness=None if verdict is not False else "<wxs module=\"m\" src=\"./m.wxs\"/> then set_inline_script_content(.., \"m\", ..): the dependency on ./m.wxs disappears"))
+    return obs
+
+
 def wave8_rules(ctx):
     """obligations added after the eighth wave of seeded changes"""
     ob = ctx.ob
@@ -368,4 +416,5 @@ def run(ctx):
     obs += algo_rule(ctx)
     obs += lazy_rule(ctx)
     obs += wave8_rules(ctx)
+    obs += wave10_rules(ctx)
     return obs
